@@ -19,28 +19,42 @@ structure Sym.WF (y : Sym) : Prop where
 theorem tdiv_lit (V : Int) (h : 0 < V) (k : Int) : V.tdiv k = V / k :=
   Int.tdiv_eq_ediv_of_nonneg (Int.le_of_lt h)
 
-set_option maxHeartbeats 1000000 in
-theorem symop_rebuilds_bin_aux (y : Sym) (h : y.WF) (b : Bin) (hv : 0 ≤ b.view ∧ b.view < y.V)
-    (ht : b.tof = 0 ∨ y.swapS = false ∨ y.d180 = false) :
-    (y.findSymOp b).onBin (y.basic b) = b := by
-  obtain ⟨V, d90, d180, sseg, ss, sz, nppr, nppa, delta2, zoff4⟩ := y
-  obtain ⟨seg, view, ax, tang, tof⟩ := b
-  obtain ⟨hV, h90, h180, hn⟩ := h
-  simp only at hV h90 h180 hn hv ht
-  have e3 : (3 * V).tdiv 2 = (3 * V) / 2 := Int.tdiv_eq_ediv_of_nonneg (by omega)
-  have hz : sz = true → nppa seg * ax = 0 → ax = 0 := by
-    intro h1 h2
-    rcases Int.mul_eq_zero.mp h2 with h3 | h3
-    · exact absurd h3 (hn h1 seg)
-    · exact h3
-  clear hn
-  generalize nppa seg * ax = p at *
-  simp only [Sym.findSymOp, Sym.basic, Sym.findBasicBin, Sym.findBasicVS, Sym.symOpBin0, Sym.symOpGeneral,
-    Sym.newOp, Sym.mkShift, SymOp.triv, tdiv_lit V hV]
-  cases d90 <;> cases d180 <;> cases sseg <;> cases ss <;> cases sz <;>
-    simp only [Bool.false_and, Bool.true_and, Bool.not_true, Bool.not_false, Bool.false_or, Bool.true_or, if_true, if_false,
-      Bool.false_eq_true] at * <;>
-    (split_ifs <;> simp only [SymOp.onBin, tdiv_lit V hV, e3, Bin.mk.injEq] <;> (try split_ifs) <;>
-      simp only [Bin.mk.injEq, beq_iff_eq, bne_iff_ne, Bool.and_eq_true, decide_eq_true_eq, Bool.or_eq_true, ne_eq,
-        Bool.not_eq_true', decide_eq_false_iff_not, true_and, and_true, forall_const, false_implies, true_implies] at * <;> omega)
+/-- the switches that matter for the proofs, as a plain record of hypotheses -/
+structure Sw (y : Sym) (d90 d180 : Bool) : Prop where
+  e90 : y.d90 = d90
+  e180 : y.d180 = d180
+
+set_option hygiene false in
+/-- common script: destructure, fix the switches, unfold, then walk the decision tree: at every node try to close
+    the goal (or find the path contradictory) with `omega`, otherwise split the next `if` -/
+macro "rb_tac" : tactic => `(tactic|
+  (obtain ⟨V, d90, d180, sseg, ss, sz, nppr, nppa, delta2, zoff4⟩ := y
+   obtain ⟨hV, h90, h180, hn⟩ := h
+   obtain ⟨e90, e180⟩ := hs
+   simp only at hV h90 h180 hn hv e90 e180
+   subst e90 e180
+   have e3 : (3 * V).tdiv 2 = (3 * V) / 2 := Int.tdiv_eq_ediv_of_nonneg (by omega)
+   have hz : sz = true → nppa seg * ax = 0 → ax = 0 := by
+     intro h1 h2
+     rcases Int.mul_eq_zero.mp h2 with h3 | h3
+     · exact absurd h3 (hn h1 seg)
+     · exact h3
+   clear hn
+   generalize hp : nppa seg * ax = p at *
+   cases sseg <;> cases ss <;> cases sz <;>
+     simp only [Sym.basic, Sym.findBasicBin, Sym.findBasicVS, Sym.symOpBin0, Sym.symOpGeneral,
+       Sym.newOp, Sym.mkShift, SymOp.triv, tdiv_lit V hV, hp,
+       true_and, false_and, and_true, and_false, true_or, false_or, or_true, or_false, if_true, if_false,
+       Bool.false_eq_true, forall_const, false_implies, true_implies, reduceCtorEq] at * <;>
+     repeat' (first
+       | omega
+       | (simp only [SymOp.onBin, tdiv_lit V hV, e3, Bin.mk.injEq, true_and, and_true]; omega)
+       | split)))
+
+theorem rb0_FF (y : Sym) (h : y.WF) (hs : Sw y false false) (seg view ax tof : Int) (hv : 0 ≤ view ∧ view < y.V) :
+    (y.symOpBin0 seg view ax).onBin (y.basic ⟨seg, view, ax, 0, tof⟩) = ⟨seg, view, ax, 0, tof⟩ := by rb_tac
+theorem rb0_FT (y : Sym) (h : y.WF) (hs : Sw y false true) (seg view ax tof : Int) (hv : 0 ≤ view ∧ view < y.V) :
+    (y.symOpBin0 seg view ax).onBin (y.basic ⟨seg, view, ax, 0, tof⟩) = ⟨seg, view, ax, 0, tof⟩ := by rb_tac
+theorem rb0_TT (y : Sym) (h : y.WF) (hs : Sw y true true) (seg view ax tof : Int) (hv : 0 ≤ view ∧ view < y.V) :
+    (y.symOpBin0 seg view ax).onBin (y.basic ⟨seg, view, ax, 0, tof⟩) = ⟨seg, view, ax, 0, tof⟩ := by rb_tac
 end StirVerif.C03
